@@ -59,7 +59,15 @@ func genC08(r *sim.Rand, tier string) *sim.Program {
 			fault = r.Range(1, 9)
 		}
 		// impl A, impl B, fault kind, message index (0..2), position, value, scalar seeds
-		p.Add("session", r.Intn(2), r.Intn(2), fault, r.Intn(3), r.Intn(1<<16), 1+r.Intn(255), r.Intn(1<<30), r.Intn(1<<30))
+		degenerate := 0
+		if r.Chance(1, 10) {
+			degenerate = r.Range(1, 2) // 1: the responder's static key makes P_B + [x~_B]R_B the point at infinity; 2: same for the initiator
+		}
+		reuse := 0
+		if i > 0 && r.Chance(1, 3) {
+			reuse = 1 // the sm2.KeyExchange objects of the previous session are used again
+		}
+		p.Add("session", r.Intn(2), r.Intn(2), fault, r.Intn(3), r.Intn(1<<16), 1+r.Intn(255), r.Intn(1<<30), r.Intn(1<<30), degenerate, reuse)
 	}
 	if r.Chance(1, 3) {
 		p.Add("ecdh")
@@ -110,12 +118,12 @@ func execC08(t *testing.T, p *sim.Program, c *sim.Ctx) {
 	verifhook.SetMaybeReadDecider(func() bool { return false })
 	defer verifhook.SetMaybeReadDecider(nil)
 	ka, kb := ((p.C("ka")%3)+3)%3, ((p.C("kb")%3)+3)%3
-	privA, dA, err := c06Key(ka, p.CB("da"))
+	privA0, dA0, err := c06Key(ka, p.CB("da"))
 	if err != nil {
 		c.Fail("setup", -1, "setup", "%v", err)
 		return
 	}
-	privB, dB, err := c06Key(kb, p.CB("db"))
+	privB0, dB0, err := c06Key(kb, p.CB("db"))
 	if err != nil {
 		c.Fail("setup", -1, "setup", "%v", err)
 		return
@@ -138,8 +146,9 @@ func execC08(t *testing.T, p *sim.Program, c *sim.Ctx) {
 		}
 		return u
 	}
-	PA, PB := sm2m.Point{X: privA.X, Y: privA.Y}, sm2m.Point{X: privB.X, Y: privB.Y}
-	zA, zB := sm2m.ZA(eff(idA), PA), sm2m.ZA(eff(idB), PB)
+	PA0, PB0 := sm2m.Point{X: privA0.X, Y: privA0.Y}, sm2m.Point{X: privB0.X, Y: privB0.Y}
+	zA0, zB0 := sm2m.ZA(eff(idA), PA0), sm2m.ZA(eff(idB), PB0)
+	var keepA, keepB *sm2.KeyExchange // objects of the previous session (reuse knob)
 	c.Abs(ka, kb, sim.LenClass(len(idA), 64), sim.LenClass(len(idB), 64), conf, sim.LenClass(klen, 32))
 	var prevM2 []byte // R_B || S_B of the previous session (for replay)
 	var prevM1, prevM3 []byte
@@ -149,7 +158,7 @@ func execC08(t *testing.T, p *sim.Program, c *sim.Ctx) {
 		b[31] |= 1
 		return new(big.Int).SetBytes(b)
 	}
-	newParty := func(impl int, initiator bool, r *big.Int) (*c08Party, error) {
+	newParty := func(impl int, initiator bool, r *big.Int, privA, privB *sm2.PrivateKey, dA, dB *big.Int, reuseKE *sm2.KeyExchange) (*c08Party, error) {
 		q := &c08Party{impl: impl, initiator: initiator, klen: klen, conf: conf, rEph: r}
 		if initiator {
 			q.priv, q.d, q.peerPub, q.uid, q.peerUID = privA, dA, &ecdsa.PublicKey{Curve: privB.Curve, X: privB.X, Y: privB.Y}, idA, idB
@@ -158,6 +167,11 @@ func execC08(t *testing.T, p *sim.Program, c *sim.Ctx) {
 		}
 		var err error
 		if impl == 0 {
+			if reuseKE != nil {
+				q.ke = reuseKE
+				c.Hit("probe:key-exchange-object-reused")
+				return q, nil
+			}
 			q.ke, err = sm2.NewKeyExchange(q.priv, q.peerPub, q.uid, q.peerUID, klen, conf)
 			return q, err
 		}
@@ -174,6 +188,7 @@ func execC08(t *testing.T, p *sim.Program, c *sim.Ctx) {
 		if op.K == "ecdh" {
 			c.OpsDone++
 			c.Abs("ecdh")
+			privA, dA, dB, PB := privA0, dA0, dB0, PB0
 			ea, e1 := ecdh.P256().NewPrivateKey(dA.FillBytes(make([]byte, 32)))
 			eb, e2 := ecdh.P256().NewPrivateKey(dB.FillBytes(make([]byte, 32)))
 			if e1 != nil || e2 != nil {
@@ -207,7 +222,37 @@ func execC08(t *testing.T, p *sim.Program, c *sim.Ctx) {
 			fval = 1
 		}
 		rA, rB := scalar(op.Int(6), "ra"), scalar(op.Int(7), "rb")
-		c.Abs("s", implA, implB, fault, fmsg)
+		degenerate, reuse := op.Int(8), op.Int(9) == 1
+		// session-local static keys (a degenerate party's static key is derived from its ephemeral key)
+		privA, dA, PA, zA := privA0, dA0, PA0, zA0
+		privB, dB, PB, zB := privB0, dB0, PB0, zB0
+		if degenerate == 1 || degenerate == 2 {
+			fault = 0
+			reuse = false
+			r := rB
+			if degenerate == 2 {
+				r = rA
+			}
+			R := sm2m.ScalarBaseMult(r)
+			xt := new(big.Int).And(R.X, new(big.Int).Sub(new(big.Int).Lsh(big.NewInt(1), 127), big.NewInt(1)))
+			xt.Add(xt, new(big.Int).Lsh(big.NewInt(1), 127))
+			dd := new(big.Int).Mul(xt, r)
+			dd.Neg(dd)
+			dd.Mod(dd, sm2m.N) // d = -(x~ * r) mod n  =>  P + [x~]R = O and t = 0
+			if dd.Sign() > 0 && dd.Cmp(new(big.Int).Sub(sm2m.N, big.NewInt(1))) < 0 {
+				if k, err := sm2.NewPrivateKey(dd.FillBytes(make([]byte, 32))); err == nil {
+					if degenerate == 1 {
+						privB, dB, PB = k, dd, sm2m.Point{X: k.X, Y: k.Y}
+						zB = sm2m.ZA(eff(idB), PB)
+					} else {
+						privA, dA, PA = k, dd, sm2m.Point{X: k.X, Y: k.Y}
+						zA = sm2m.ZA(eff(idA), PA)
+					}
+					c.Hit("probe:degenerate-static-key-V-is-infinity")
+				}
+			}
+		}
+		c.Abs("s", implA, implB, fault, fmsg, degenerate, reuse)
 		attempts := 1
 		if fault == 9 {
 			attempts = 2 // a dropped message: the session is restarted and must then complete in three deliveries
@@ -218,15 +263,24 @@ func execC08(t *testing.T, p *sim.Program, c *sim.Ctx) {
 				f = 0
 				c.Hit("probe:restarted-session-completes")
 			}
-			A, err := newParty(implA, true, rA)
+			var ruA, ruB *sm2.KeyExchange
+			if reuse && attempt == 0 {
+				ruA, ruB = keepA, keepB
+			}
+			A, err := newParty(implA, true, rA, privA, privB, dA, dB, ruA)
 			if err != nil {
 				c.Fail("setup", i, op.K, "initiator: %v", err)
 				return
 			}
-			B, err := newParty(implB, false, rB)
+			B, err := newParty(implB, false, rB, privA, privB, dA, dB, ruB)
 			if err != nil {
 				c.Fail("setup", i, op.K, "responder: %v", err)
 				return
+			}
+			if degenerate == 0 {
+				keepA, keepB = A.ke, B.ke
+			} else {
+				keepA, keepB = nil, nil
 			}
 			// ---- A: message 1
 			var m1 []byte
@@ -294,7 +348,7 @@ func execC08(t *testing.T, p *sim.Program, c *sim.Ctx) {
 			c.OutErr("b-respond", berr)
 			if !mok {
 				if berr == nil {
-					c.Fail("invalid-point-accepted", i, op.K, "the responder accepted an invalid initiator point (fault %d): %x", f, d1)
+					c.Fail("invalid-point-accepted", i, op.K, "the responder continued although the initiator point is invalid or the agreed point V is the point at infinity (fault %d, degenerate %d): %x", f, degenerate, d1)
 					return
 				}
 				c.Hit("fault:invalid-point-rejected")
